@@ -44,6 +44,7 @@ func checkCmd(args []string) int {
 	switch *prop {
 	case "C03":
 		entries := vc.RouteCorpus(corpusDir, *tier, seed)
+		entries = append(entries, vc.BaseFormCorpus(corpusDir)...)
 		entries = append(entries, vc.FixtureCorpus(*repo, "router", "path_wildcard", "double_wildcard", "petstore")...)
 		cr.CheckRoutingFamily(entries)
 		return cr.Finish("proof", checkerCmd, commonTrusted, "one obligation per (emitted function, return site, clause) of the route*/ServeHTTP/splitPath contracts; all requests are quantified, programs are the enumerated corpus")
@@ -65,6 +66,13 @@ func checkCmd(args []string) int {
 		}
 		cr.CheckRoutingFamily(entries)
 		return cr.Finish("proof", checkerCmd, commonTrusted, routeRule)
+	case "C13":
+		cr.CheckQuoting()
+		entries := vc.RouteCorpus(corpusDir, "quick", seed)
+		entries = append(entries, vc.BaseFormCorpus(corpusDir)...)
+		entries = append(entries, vc.FixtureCorpus(*repo, "router", "middleware")...)
+		cr.CheckRoutingFamily(entries)
+		return cr.Finish("proof", checkerCmd, commonTrusted, "quoting rule obligations of encodeRawFileAsString (all file contents) + ServeHTTP/ensures#spec per corpus package (all requests)")
 	case "C17":
 		entries := vc.CorsCorpus(corpusDir, *tier)
 		entries = append(entries, vc.FixtureCorpus(*repo, "cors_default")...)
